@@ -18,13 +18,18 @@ from pynetdicom2 import dulprovider, fsm, pdu, userdataitems, dimsemessages  # n
 
 
 class Sock(object):
-    def __init__(self, chunks):
+    def __init__(self, chunks, eof=False):
         self.chunks = list(chunks)
         self.sent = []
         self.closed = False
+        self.eof = eof            # the peer closes the connection behind the last chunk
+        self.eof_seen = False
 
     def recv(self, n):
-        return self.chunks.pop(0) if self.chunks else b''
+        if self.chunks:
+            return self.chunks.pop(0)
+        self.eof_seen = True
+        return b''
 
     def sendall(self, d):
         self.sent.append(bytes(d))
@@ -73,13 +78,14 @@ def conversation():
     return {'rq+abort': rq + ab, 'rq+echo+release': rq + pdata + rel, 'rq+release': rq + rel}
 
 
-def run_stream(chunks, waiting_at_start, accept=False):
+def run_stream(chunks, waiting_at_start, accept=False, eof=False):
     # the local user stays passive: its answers would race with the peer's next PDU, and that race
     # (not the segmentation) would then decide the outcome
-    s = Sock(chunks if waiting_at_start else [])
+    s = Sock(chunks if waiting_at_start else [], eof)
     later = [] if waiting_at_start else list(chunks)
     p = dulprovider.DULServiceProvider(frozenset(), None, s)
-    dulprovider.select.select = lambda r, w, x, t=None: (list(r) if s.chunks else [], [], [])
+    dulprovider.select.select = lambda r, w, x, t=None: (
+        list(r) if (s.chunks or (s.eof and not later and not s.eof_seen)) else [], [], [])
     seen = []
     idle = 0
     for _ in range(400):
@@ -104,6 +110,10 @@ def run_stream(chunks, waiting_at_start, accept=False):
                 break
         else:
             idle = 0
+    if eof:
+        idle = p.state_machine.current_state == fsm.States.STA_1
+        return seen, [d[:1].hex() for d in s.sent], ('closed' if s.closed else 'open',
+                                                    'idle Sta1' if idle else 'state %r' % (p.state_machine.current_state,))
     return seen, [d[:1].hex() for d in s.sent]
 
 
@@ -137,6 +147,33 @@ def search():
                               'user_saw': got[0], 'expected': ref[0], 'sent_types': got[1], 'expected_sent': ref[1]}, \
                         ['event-handled-with-its-own-primitive / no-byte-lost-duplicated-or-reordered: indications %r, '
                          'one-PDU-per-segment gives %r' % (got[0], ref[0])]
+    # the peer closes the connection behind the last byte: what arrived before the close is handled before the
+    # close is, under every segmentation; and a close after any byte prefix ends idle with the connection closed
+    for name, stream in conversation().items():
+        frames, pos = [], 0
+        while pos < len(stream):
+            ln = int.from_bytes(stream[pos + 2:pos + 6], 'big') + 6
+            frames.append(stream[pos:pos + ln])
+            pos += ln
+        ref = run_stream(frames, waiting_at_start=False, eof=True)
+        for what, chunks in cuts_of(stream):
+            if what.startswith('cuts at'):
+                continue
+            n += 1
+            got = run_stream(chunks, True, eof=True)
+            if got != ref:
+                yield n, {'conversation': name + ', then the peer closes', 'segmentation': what, 'user_saw': got[0],
+                          'expected': ref[0], 'sent_types': got[1], 'expected_sent': ref[1], 'end': got[2],
+                          'expected_end': ref[2]}, \
+                    ['a-buffered-complete-pdu-is-recognised-before-the-close: indications %r, one-PDU-per-segment '
+                     'gives %r' % (got[0], ref[0])]
+        for k in range(0, len(stream)):
+            n += 1
+            got = run_stream([stream[:k]] if k else [], True, eof=True)
+            if got[2][0] != 'closed' or not got[2][1].endswith('1'):
+                yield n, {'conversation': name, 'peer_closes_after_bytes': k, 'end': got[2], 'user_saw': got[0]}, \
+                    ['end-of-stream-is-evt17 / socket-closed-and-dropped: after the peer closed behind %d bytes the '
+                     'provider ends %r' % (k, got[2])]
     yield n, None, None
 
 
@@ -151,7 +188,8 @@ def main():
             break
     print(json.dumps({'reproduced': bool(failures), 'failures': failures[:6], 'evaluations': n,
                       'bound': '3 acceptor-side conversations x (all at once, 1-byte dribble, every single cut, ~90 pairs of '
-                               'cuts) x first segment waiting at start or not'}, default=str))
+                               'cuts) x first segment waiting at start or not; the same followed by the peer\'s close '
+                               '(all at once, dribble, single cuts); close after every byte prefix'}, default=str))
 
 
 if __name__ == '__main__':
